@@ -2,7 +2,7 @@
 # Paths are abstract strings; os.path / urllib are uninterpreted functions with trusted axioms (A-OSPATH, A-URLLIB), each
 # validated against CPython by harness/C32.py.
 STRINGS = "abstract"
-cls("SplitResult", scheme=Str)
+cls("SplitResult", scheme=Str, path=Str)
 cls("ModuleType")
 const("os.path.sep", Str, "/")
 
@@ -129,3 +129,13 @@ def roundtrip_any_name(pp: ModuleType, p: Str, old: Str, new: Str):
     there = remap_path(pp, p, old, new)
     back = remap_path(pp, there, new, old)
     ensures_known("KF-C32-percent-names", back == p)
+
+
+# ---- where the old directory comes from: the path of a CWL document / inputs file id ----------------------------------------------
+@contract("streamflow/cwl/translator.py", "_get_path")
+def _(element_id: Str) -> Str:
+    # the directory the translator hands to remap_token_value as `old_dir` is DECODED like the locations being remapped: the
+    # fragment is cut off, a file:// id is percent-decoded, anything else is returned as it is
+    ensures(implies("#" not in element_id and element_id.startswith("file://"), result == unq(element_id[7:])))
+    ensures(implies("#" not in element_id and not element_id.startswith("file://"), result == element_id))
+    ensures(implies("#" in element_id and element_id.split("#")[0].startswith("file://"), result == unq(element_id.split("#")[0][7:])))
